@@ -288,6 +288,46 @@ pub fn c08(cx: &mut Ctx) {
             }
         }
     }
+    // other fields in front of Content-Length — empty-valued, whitespace-only — do not change the framing
+    for before in ["X-Trace:\r\n", "Server: \r\nX-A: 1\r\n", "x-e:\t\r\nX-Trace:\r\n"] {
+        for n in [1usize, 4] {
+            cx.case("lenafter");
+            let body: Vec<u8> = (0..n).map(|i| b'k' + (i % 10) as u8).collect();
+            let head = format!("HTTP/1.1 200 OK\r\n{}Content-Length: {}\r\nX-Z:\r\n\r\n", before, n).into_bytes();
+            if !to_recv_body(cx, "GET", &head) { cx.op("close?"); continue; }
+            cx.meta(&format!("len {} {}", n, hx(&body)));
+            cx.op("mode");
+            let mut stream = body.clone();
+            stream.extend_from_slice(NEXT);
+            let used = read_schedule(cx, &stream, &[n / 2, stream.len()], &mut || 1000, false);
+            cx.meta(&format!("consumed {}", used));
+            cx.op("canproceed");
+            cx.op("proceed");
+            cx.op("close?");
+        }
+    }
+    // responses that cannot have a body although they declare a length (304, 204, 1xx, any answer to HEAD):
+    // no body state, nothing of what follows is consumed
+    for (m, status) in [("GET", 304u16), ("GET", 204), ("HEAD", 200), ("HEAD", 404), ("POST", 304), ("GET", 199)] {
+        for framing in ["Content-Length: 5\r\n", "Transfer-Encoding: chunked\r\n", "Content-Length: 5\r\nConnection: keep-alive\r\n"] {
+            cx.case("nobody");
+            cx.meta("nobody");
+            if !super::head::to_recv_response_any(cx, m) { continue; }
+            let head = format!("HTTP/1.1 {} X\r\n{}\r\n", status, framing).into_bytes();
+            let mut w = head.clone();
+            w.extend_from_slice(NEXT);
+            cx.op(&format!("resp {}", hx(&w)));
+            cx.op("canproceed");
+            cx.op("proceed");
+            if cx.rec.state() == "recvBody" {
+                cx.op("mode");
+                cx.op(&format!("bread {} 100", hx(NEXT)));
+                cx.op("canproceed");
+                cx.op("proceed");
+            }
+            cx.op("close?");
+        }
+    }
     // an informational response first, then the length-delimited one on the same flow
     for n in [1usize, 5, 300] {
         cx.case("after1xx");
